@@ -494,10 +494,8 @@ func runV1Access(r *core.Run) {
 		}
 		// a hostile id never makes Acra create a symbolic link
 		r.Check(len(res.symlinks) == 0, "v1-created-symlink", fmt.Sprintf("%s(%q) left a symbolic link in the sandbox: %v", method, id, res.symlinks))
-		// an invalid id is refused before the storage is touched
-		if !valid {
-			r.Check(res.answer == "rejected", class, fmt.Sprintf("%s(%q) is not refused with ErrInvalidClientID before touching the storage (%s)", method, id, res.answer))
-		}
+		// (that an invalid id is refused before the storage is touched is the model's prediction, compared
+		// above; the oracle judges only what the property says: nothing outside the key folder)
 		if res.answer == "rejected" {
 			r.Tag("access:rejected")
 		} else {
@@ -512,7 +510,7 @@ func runV1Access(r *core.Run) {
 	// every method × every adversarial id (quick: a seeded third of the ids per method beyond the corpus)
 	for _, m := range accMethods {
 		for _, id := range accBadIDs {
-			if !r.Thorough() && !rd.Chance(34) {
+			if !r.Thorough() && !rd.Chance(22) {
 				continue
 			}
 			sc := "V"
@@ -536,7 +534,7 @@ func runV1Access(r *core.Run) {
 		}
 	}
 	// random ids: bytes from an alphabet rich in separators and dots
-	n := r.N(40, 1500)
+	n := r.N(30, 1500)
 	alphabet := []string{"/", "/", ".", "..", "a", "b", "_", "-", " ", "\\", "\x00", "client", "storage", "_storage", ".old", ".pub", "0"}
 	for i := 0; i < n; i++ {
 		var sb strings.Builder
